@@ -41,8 +41,8 @@ class Step:
 
 
 class Src:
-    def __init__(self, kind, r=None, ex=None, p=None, ful=None, head=None):
-        self.kind, self.r, self.ex, self.p, self.ful, self.head = kind, r, ex, p, ful, head
+    def __init__(self, kind, r=None, ex=None, p=None, ful=None, head=None, h=None):
+        self.kind, self.r, self.ex, self.p, self.ful, self.head, self.h = kind, r, ex, p, ful, head, h
 
     def text(self):
         k = self.kind
@@ -50,6 +50,8 @@ class Src:
             return '%s %s' % (k, self.r)
         if k in ('contract', 'shared_contract'):
             return '%s p%d %s' % (k, self.p, self.ful)
+        if k == 'shared_handle':
+            return 'shared_handle s%d' % self.h
         if k in ('contract_on', 'async_contract', 'lazy_contract'):
             return '%s %s p%d %s' % (k, self.ex, self.p, self.ful)
         return '%s %s' % (k, self.head.text())
@@ -80,9 +82,9 @@ def kind_of_src(s):
 def kind_after(k, st):
     m = st.mode
     if m == 'inline':
-        return k if k in 'FOT' else 'B'
+        return k if k in 'FOT' else ('F' if k == 'S' else 'B')
     if m == 'on':
-        return 'O' if k in 'FO' else ('T' if k == 'T' else 'B')
+        return 'O' if k in 'FOS' else ('T' if k == 'T' else 'B')
     if m == 'inherit':
         return k if k in 'OT' else 'B'
     if m in ('detach_inline', 'detach'):
@@ -97,6 +99,8 @@ def modes_for(k):
         return ['inline', 'on', 'inherit', 'detach_inline', 'detach', 'detach_inherit']
     if k == 'T':
         return ['inline', 'on', 'inherit']
+    if k == 'S':
+        return ['inline', 'on']
     return []
 
 
@@ -119,6 +123,7 @@ class Program:
         self.cfg = {}       # k -> (queue?, limit or None)
         self.inner = {}     # pid -> Inner (insertion order = definition order)
         self.src = None
+        self.kept = {}      # j -> (promise, ful, ready?, copies): SharedFutures the client keeps and observes again
         self.body = []      # lines after the inner definitions (src … end exclusive)
         self.steps = []     # top-level steps in attachment order
         self.start = None   # start kind of a lazy program
@@ -130,6 +135,8 @@ class Program:
         for k, (q, lim) in sorted(self.cfg.items()):
             kind = ('manual' if k in self.meta.get('manual', ()) else 'queue') if q else 'inline'
             out.append('cfg e%d %s%s' % (k, kind, '' if lim is None else ' limit=%d' % lim))
+        for j, (p, ful, ready, copies) in sorted(self.kept.items()):
+            out.append('shared s%d p%d %s %s copies=%d' % (j, p, ful, 'ready' if ready else 'later', copies))
         for i in self.inner.values():
             out += i.lines()
         return out + self.body
@@ -186,6 +193,8 @@ def spec_src(st, prog, src, ovr, lazy):
         return st.offered(e, ful_result(src.ful)), e
     if k == 'shared_ready':
         return src.r, 'inl'
+    if k == 'shared_handle':
+        return ful_result(prog.kept[src.h][1]), 'inl'
     return ful_result(src.ful), 'inl'
 
 
@@ -337,6 +346,8 @@ class Gen:
 
     def gen_src(self, prog, lazy, inner):
         rng = self.rng
+        if not lazy and prog.kept and rng.random() < (0.3 if inner else 0.2):
+            return Src('shared_handle', h=rng.choice(sorted(prog.kept)))   # a copy of a SharedFuture the client keeps
         if lazy:
             k = rng.choices(['task_ready', 'schedule', 'lazy_contract'], [4, 4, 1.5])[0]
         elif inner and rng.random() < 0.12:
@@ -392,6 +403,9 @@ class Gen:
             prog.cfg[k] = (queue, lim)
             if queue and rng.random() < 0.4:
                 prog.meta.setdefault('manual', set()).add(k)   # backed by the library's real ManualExecutor
+        if rng.random() < {'C02': 0.3, 'C03': 0.25}.get(self.emph, 0.12):
+            for j in range(rng.choice([1, 1, 2])):
+                prog.kept[j] = (self.new_p(prog), self.ful(), rng.random() < 0.6, rng.choice([1, 1, 2]))
         lazy = rng.random() < {'C12': 0.85, 'C02': 0.3, 'C03': 0.4}.get(self.emph, 0.25)
         src = self.gen_src(prog, lazy, inner=False)
         prog.src = src
@@ -466,6 +480,8 @@ class Gen:
             if not handle:
                 break
             last = i == nsteps - 1
+            if not modes_for(kind):
+                break
             s = self.gen_step(prog, kind, depth, st, r, inh, allow_detach=last and kind in 'FO')
             prog.steps.append(s)
             body.append('then ' + s.text())
@@ -477,16 +493,18 @@ class Gen:
         if lazy and n_before >= len(prog.steps) and prog.start and not any(l.startswith(('start', 'droptask')) for l in body):
             do_start()
         # drop point (C03): give the handle up while the pipeline may still be pending
-        if handle and kind in 'FO' and rng.random() < {'C03': 0.45}.get(self.emph, 0.12):
+        if handle and kind in 'FOS' and rng.random() < {'C03': 0.45}.get(self.emph, 0.12):
             body.append('dropfuture')
             handle = False
         # flush: fulfil everything, drain everything, a few rounds (nested pipelines need several)
         body.append('flush')
         body.append('expect')
         prog.meta['final_expect'] = len(body) - 1
-        if handle and kind in 'FO':
+        if handle and kind in 'FOS':
             body.append(rng.choice(['get', 'get', 'dropfuture']))
             body.append('expect')
+        for j in sorted(prog.kept):
+            body.append('obs s%d' % j)       # the kept handles must still deliver what they were fulfilled with
         prog.body = body
         if lazy:
             prog.tags.add('lazy')
@@ -510,7 +528,7 @@ def eager_twin(prog):
     else:
         tsrc = Src('async_contract', ex=ovr or src.ex, p=src.p, ful=src.ful)
     tw = Program()
-    tw.cfg, tw.inner, tw.src, tw.steps = prog.cfg, prog.inner, tsrc, prog.steps
+    tw.cfg, tw.inner, tw.src, tw.steps, tw.kept = prog.cfg, prog.inner, tsrc, prog.steps, prog.kept
     kind = kind_of_src(tsrc)
     body = ['src ' + tsrc.text()]
     for s in prog.steps:
@@ -631,6 +649,8 @@ def reparse(lines):
             return Src(k, r=t[1])
         if k in ('contract', 'shared_contract'):
             return Src(k, p=int(t[1][1:]), ful=t[2])
+        if k == 'shared_handle':
+            return Src(k, h=int(t[1][1:]))
         if k in ('contract_on', 'async_contract', 'lazy_contract'):
             return Src(k, ex=t[1], p=int(t[2][1:]), ful=t[3])
         h = pstep(t[1:])
@@ -646,6 +666,10 @@ def reparse(lines):
             prog.cfg[int(t[1][1:])] = (t[2] != 'inline', lim)
             if t[2] == 'manual':
                 prog.meta.setdefault('manual', set()).add(int(t[1][1:]))
+            continue
+        if t[0] == 'shared':
+            prog.kept[int(t[1][1:])] = (int(t[2][1:]), t[3], t[4] == 'ready', int(t[5].split('=')[1]))
+            maxp = max(maxp, int(t[2][1:]))
             continue
         if t[0] == 'in':
             pid = int(t[1])
@@ -703,6 +727,8 @@ def monitor(prog, outs, props):
         return [(p, msg) for p in ('C02', 'C03', 'C12')]
     states = [parse_state(o) for o in impl]
     started = False
+    built = False
+    fulfilled = set()
     prev_alloc_total = 0
     total_alloc = 0
     for i, (l, s) in enumerate(zip(lines, states)):
@@ -722,8 +748,30 @@ def monitor(prog, outs, props):
             bad.append(('C20', '%d allocation(s) on `%s` (line %d)' % (s['al'], l, i)))
         if s['lc'] < 0 or s['lf'] < 0:
             bad.append(('C03', 'negative live count at line %d: %s' % (i, impl[i])))
+        # C02 (sources: SharedFuture) / C06 seen from the pipeline: a SharedFuture handle the client kept still delivers the
+        # value it was fulfilled with, whatever pipelines consumed copies of it (a consumer may move the value out only if it is
+        # provably the last holder)
+        if t[0] == 'src':
+            built = True
+        if built and (t[0] == 'flush' or t[0] == 'set'):
+            for j, (kp, kful, kready, _) in prog.kept.items():
+                if t[0] == 'flush' or t[1] == 'p%d' % kp:
+                    fulfilled.add(j)
+        if t[0] == 'obs':
+            j = int(t[1][1:])
+            kp, kful, kready, kcopies = prog.kept[j]
+            want = ful_result(kful) if (kready or j in fulfilled) else 'pending'
+            if s.get('obs') != want:
+                bad.append(('C02', 'the kept SharedFuture handle s%d (%d handle(s) kept) delivers %s although it was fulfilled with '
+                                   '%s: a pipeline that consumed a copy of it damaged the shared value' % (
+                                       j, kcopies, s.get('obs'), want)))
     fe = prog.meta.get('final_expect')
     if fe is None:
+        return bad
+    # the comparisons with the sequential reading presuppose that the client let everything happen: a `flush` before the
+    # last `expect`, and a lazy pipeline started or dropped (a shrunk / hand-written program may lack them: nothing to compare)
+    if 'flush' not in prog.body[:fe] or ('lazy' in prog.tags and not any(
+            l.startswith(('start ', 'droptask')) for l in prog.body[:fe])):
         return bad
     fi = off + fe
     fin = states[fi]
@@ -833,6 +881,24 @@ def shrink(lines, fails, budget=400):
     return cur
 
 
+def msg_class(msg):
+    """a finding up to its numbers: what must stay the same while a failing program is minimised"""
+    return re.sub(r'-?\d+', 'N', msg)[:70]
+
+
+def _has_class(lines, prop, kind, key):
+    try:
+        prog = reparse(lines)
+        if prog.src is None:
+            return False
+        o = run_batch([lines], kind)[0]
+        if any(x == 'bad' for x in o['impl']):
+            return False
+        return any(q == prop and msg_class(m) == key for q, m in monitor(prog, o, {prop}))
+    except Exception:
+        return False
+
+
 def _has_message(lines, prop, kind, pattern):
     try:
         prog = reparse(lines)
@@ -900,6 +966,8 @@ def exhaustive(max_steps=2):
             10 * j + 4: Inner(10 * j + 4, Src('task_ready', r='v13'), [Step(b + 1, 'V', 'on', 'e1', ('val', 1))]),
             10 * j + 5: Inner(10 * j + 5, Src('shared_ready', r='v14'), []),
             10 * j + 6: Inner(10 * j + 6, Src('contract_on', ex='e1', p=20 + j, ful='set:e3'), [Step(b + 2, 'E', 'inherit', None, ('res', 'x5'))]),
+            10 * j + 7: Inner(10 * j + 7, Src('shared_handle', h=0), []),      # a copy of the ready SharedFuture the client keeps
+            10 * j + 8: Inner(10 * j + 8, Src('shared_handle', h=1), [Step(b + 3, 'V', 'inline', None, ('val', 2))]),  # fulfilled later
         }
     srcs = [Src('ready', r='v1'), Src('ready', r='e2'), Src('ready', r='x3'), Src('contract', p=0, ful='set:v1'),
             Src('contract', p=0, ful='drop'), Src('contract_on', ex='e1', p=0, ful='set:v1'),
@@ -944,6 +1012,9 @@ def exhaustive(max_steps=2):
                         p = Program()
                         p.cfg, p.src, p.steps, p.start = cfgs, src, steps, start
                         p.inner = dict(sorted(used.items()))
+                        uses_kept = sorted({i.src.h for i in used.values() if i.src.kind == 'shared_handle'})
+                        if uses_kept:
+                            p.kept = {0: (28, 'set:v15', True, 1), 1: (29, 'set:v16', False, 2)}
                         body = ['src ' + src.text()]
                         if early:
                             body += ['set p0', 'drain e1', 'drain e2']
@@ -954,6 +1025,7 @@ def exhaustive(max_steps=2):
                         p.meta = {'final_expect': len(body) - 1, 'next_p': 30}
                         if k in 'FO' and start in (None, 'tofuture', 'tofuture:e1'):
                             body += ['get', 'expect']
+                        body += ['obs s%d' % j for j in uses_kept]
                         p.body = body
                         if src.lazy():
                             p.tags.add('lazy')
@@ -1071,11 +1143,12 @@ def check(res, prop, tier, n_quick, n_thorough, extra_programs=(), twins=False, 
         if q == 'gen':
             res.violation('\n'.join(p.lines()), 'internal: ' + msg, no_input=True, name='%s_%s_generator.txt' % (prop, tier))
             break
-        small = shrink(p.lines(), fails_with({prop}, kind))
-        key = msg.split(':')[0][:60]
+        key = msg_class(msg)
         if key in reported:
             continue
         reported.add(key)
+        # minimise while the SAME kind of finding stays (not just any finding)
+        small = shrink(p.lines(), lambda ls, kind=kind, key=key: _has_class(ls, prop, kind, key))
         res.violation('\n'.join(small) + '\nend', msg + '  [minimised from a %d-line program, library build `%s`]' % (len(p.lines()), kind),
                       name='%s_%s_%d.txt' % (prop, tier, len(reported)))
     if not prop_fail and corr_fail:
